@@ -20,7 +20,7 @@ let term (ver : string) (phone : string) : sim option =
 let frame_ans = function None -> "nil" | Some f -> "ok frame=" ^ hex_of_bytes f
 
 let init () =
-  register "simgen" (fun a -> match a with
+  let simgen = (fun a -> match a with
     | [ver; phone; skip; cmd; body] ->
       (match term ver phone with
        | None -> "bad-header"
@@ -32,7 +32,9 @@ let init () =
          let cmd = n_of_int (int_of_string cmd) in
          if body = "D" then frame_ans (snd (create_default !t cmd))
          else frame_ans (Some (snd (create_command !t cmd (bytes_of_hex body)))))
-    | _ -> "bad-args");
+    | _ -> "bad-args") in
+  register "simgen" simgen;
+  register "simgenl" simgen;
   (* simcalls <ver> <phone> <call> ... : D<cmd> = CreateDefaultCommandData, C<cmd>:<body> = CreateCommandData *)
   register "simcalls" (fun a -> match a with
     | ver :: phone :: calls ->
@@ -63,7 +65,7 @@ let init () =
          let fr = Stdlib.List.rev !out in
          Printf.sprintf "ok n=%d dig=%x first=%s last=%s" n (dig fr) (Stdlib.List.hd fr) (Stdlib.List.hd !out))
     | _ -> "bad-args");
-  register "simreply" (fun a -> match a with
+  let simreply = (fun a -> match a with
     | ver :: phone :: seq :: frames ->
       (match term ver phone with
        | None -> "bad-header"
@@ -75,4 +77,6 @@ let init () =
            t := t';
            match r with Some r -> hex_of_bytes r | None -> "nil") frames in
          "ok r=" ^ String.concat "," rs)
-    | _ -> "bad-args")
+    | _ -> "bad-args") in
+  register "simreply" simreply;
+  register "simreplym" simreply
